@@ -98,13 +98,12 @@ func (b *Bst[T]) searchNode(value T) (*BstNode[T], *BstNode[T]) {
 	node := b.root
 
 	for node != nil {
-		diff := value - node.value
-		if diff == 0 {
+		if value == node.value {
 			break
 		}
 
 		parent = node
-		if diff < 0 {
+		if value < node.value {
 			node = node.left
 		} else {
 			node = node.right
